@@ -2708,3 +2708,71 @@ func init() {
 	extend("C02", "(R24) every call of Controller.Put from package database is preceded by Lock() on the record it hands over.", func(c *Ctx, r *Report) { putUnderRecordLockRule(c, r, "C02-R24") })
 	extend("C14", "(R15) = C02-R24 (the record handed to the hooks, the storage and the subscribers is locked by the caller of Controller.Put).", func(c *Ctx, r *Report) { putUnderRecordLockRule(c, r, "C14-R15") })
 }
+
+// c14R16: an operation that a PrePut hook (or the storage) refuses leaves the
+// stored record as it was. The interface methods that fetch a record, change
+// its metadata and hand it to Controller.Put change - with a storage that hands
+// out its own objects (hashmap) - the stored record itself before the hooks
+// run; a refused Put must therefore put the metadata back.
+func c14R16(c *Ctx, r *Report) {
+	const rule = "C14-R16"
+	r.SetFloor(rule, 4)
+	mutators := []string{"record.Meta.Delete", "record.Meta.MakeSecret", "record.Meta.MakeCrownJewel", "record.Meta.SetAbsoluteExpiry", "record.Meta.SetRelativateExpiry"}
+	for _, fn := range funcsOfPkgs(c, "database") {
+		if len(callsIn(fn, "database.Interface.getRecord")) == 0 {
+			continue
+		}
+		// the function itself plus the unexported helpers of the package it calls directly
+		scope := []*ssa.Function{fn}
+		eachInstr(fn, func(in ssa.Instruction) {
+			if ci, ok := in.(ssa.CallInstruction); ok {
+				if callee := staticCallee(ci.Common()); callee != nil && callee.Pkg == fn.Pkg && callee.Signature.Recv() == nil && !token.IsExported(callee.Name()) && callee.Blocks != nil {
+					scope = append(scope, callee)
+				}
+			}
+		})
+		puts := 0
+		for _, f := range scope {
+			puts += len(callsIn(f, "database.Controller.Put"))
+		}
+		if puts == 0 {
+			continue
+		}
+		var muts []string
+		eachInstr(fn, func(in ssa.Instruction) {
+			ci, ok := in.(*ssa.Call)
+			if !ok {
+				return
+			}
+			n := calleeName(ci.Common())
+			for _, m := range mutators {
+				if strings.HasSuffix(n, m) {
+					muts = append(muts, strings.TrimPrefix(m, "record."))
+				}
+			}
+		})
+		if len(muts) == 0 {
+			continue
+		}
+		// is there anything that restores the metadata when Put returned an error?
+		restores := false
+		for _, f := range scope {
+			eachInstr(f, func(in ssa.Instruction) {
+				if st, ok := in.(*ssa.Store); ok {
+					if _, isMetaPtr := st.Addr.(*ssa.Call); isMetaPtr && strings.HasSuffix(st.Addr.Type().String(), "record.Meta") {
+						restores = true
+					}
+				}
+				if ci, ok := in.(*ssa.Call); ok && strings.HasSuffix(calleeName(ci.Common()), ".SetMeta") {
+					restores = true
+				}
+			})
+		}
+		r.Check(restores, rule, fnKey(fn)+" / a refused write leaves the stored metadata unchanged", "the metadata changed before Controller.Put is put back when Put fails",
+			fnKey(fn)+" applies "+strings.Join(muts, ", ")+" to the fetched record and then calls Controller.Put; when a PrePut hook vetoes (or the storage fails) nothing undoes the change: with the hashmap storage the fetched object is the stored one, so the refused operation has happened all the same", c.Pos(fn.Pos()))
+	}
+}
+
+func init() {
+	extend("C14", "(R16) the interface methods that change the metadata of a fetched record before Controller.Put undo the change when Put fails (hook veto, storage error) - with a storage that hands out its own objects the stored record would otherwise be changed by a refused operation. Violated on the pinned tree at five methods: known findings.", c14R16)
+}
